@@ -187,6 +187,15 @@ def evaluate(case) -> Result:
                 ci = w.handshake_in("peer1.example", auth=[4], ip="10.1.1.1", hbh=0x200 + i, spelled=case.get("spell"))
                 if ci is not None:
                     inbound_cids[ci.remote.cid] = ci
+            elif kind == "INBOUND2" and live_out and not live_in and not case.get("allow_known"):
+                # the peer opens a second connection while the node's own, ready connection to it is up
+                own = [c for c in w.conns if c.remote.cid in live_out]
+                nco = w.node_conn_for(own[0]) if own else None
+                if nco is not None and nco.state in pm.PEER_READY_STATES:
+                    ci = w.handshake_in("peer1.example", auth=[4], ip="10.1.1.1", hbh=0x200 + i, spelled=case.get("spell"))
+                    if ci is not None:
+                        inbound_cids[ci.remote.cid] = ci
+                        res.classes.append("second-connection-by-the-peer")
             elif kind == "DWA":
                 # a DWA on the newest connection of peer1 that is still open on the peer's side (also one that got a DPR)
                 tgt = [c for c in w.conns if (c.host == "peer1.example") and not c.node_closed and not c.peer_closed]
@@ -348,7 +357,7 @@ def shard_main(shard, nshards, tier, scale):
         adv = st.tuples(st.just("ADV"), st.one_of(st.integers(1, 3), st.integers(1, wait + 8)))
         ev = st.one_of(adv, adv, st.tuples(st.just("CONNECT_OK")), st.tuples(st.just("CONNECT_OK")),
                        st.tuples(st.just("CONNECT_FAIL")), st.tuples(st.just("CEA"), st.sampled_from([2001, 2001, 3010])),
-                       st.tuples(st.just("INBOUND")), st.tuples(st.just("CLOSE")), st.tuples(st.just("RESET")),
+                       st.tuples(st.just("INBOUND")), st.tuples(st.just("INBOUND2")), st.tuples(st.just("CLOSE")), st.tuples(st.just("RESET")),
                        st.tuples(st.just("DPR")), st.tuples(st.just("DPR")), st.tuples(st.just("DWA")), st.tuples(st.just("DPR_CLOSE")))
         plan = draw(st.lists(st.sampled_from(["ok", "inprogress", "inprogress", ["sync-error", 111], ["sync-error", 101]]),
                              max_size=6))
@@ -425,6 +434,12 @@ def shard_main(shard, nshards, tier, scale):
             ev = [["CONNECT_OK"], ["CEA", 2001], ["ADV", 2 + wake + 1], ["DPR"], ["DWA"], ["ADV", 1], ["DWA"], ["ADV", 3], ["CLOSE"], ["ADV", 6]]
             extra_jobs.append({"flags": {"persistent": True, "always": always, "wait": 2, "addr": True, "wakeup": wake, "idle": 2},
                                "dial_plan": [], "events": ev})
+    for wake in (1, 2):
+        for how in ("CLOSE", "RESET", "DPR_CLOSE"):
+            for wait in (1, 3):
+                ev = [["CONNECT_OK"], ["CEA", 2001], ["ADV", 1], ["INBOUND2"], ["ADV", 1], [how], ["ADV", wait + wake + 3]]
+                extra_jobs.append({"flags": {"persistent": True, "always": True, "wait": wait, "addr": True, "wakeup": wake},
+                                   "dial_plan": [], "events": ev})
     if shard == 0:
         rec.extra["systematic_jobs"] = len(jobs) + len(extra_jobs)
     for (lk, persistent, always, wait, wake) in jobs[shard::nshards]:
@@ -436,7 +451,7 @@ def shard_main(shard, nshards, tier, scale):
         record(rec, case, res, evaluate, "events", shrunk)
     for case in extra_jobs[shard::nshards]:
         res = evaluate(case)
-        res.classes += ["systematic", "dwr-outstanding-at-dpr"]
+        res.classes += ["systematic", "dwr-outstanding-at-dpr" if ["DWA"] in case["events"] else "second-connection-grid"]
         record(rec, case, res, evaluate, "events", shrunk)
     return rec.dump()
 
@@ -446,7 +461,7 @@ def run(tier, scale=1.0):
     rec = Recorder(PID)
     for d in hyp.pool_run(shard_main, (tier, scale)):
         rec.merge(d)
-    required = {"identity:respelled": 1, "stop-race-schedule": 1, "persistent:True": 1, "persistent:False": 1, "always:True": 1, "addr:False": 1, "losses:2": 1,
+    required = {"second-connection-by-the-peer": 1, "identity:respelled": 1, "stop-race-schedule": 1, "persistent:True": 1, "persistent:False": 1, "always:True": 1, "addr:False": 1, "losses:2": 1,
                 "dpr-on-ready": 1, "dwa-event": 1, "dwr-outstanding-at-dpr": 1, "reason-dpr": 1, "dials:3": 1, "loss:sync-refused": 1, "loss:cea-timeout": 1}
     return finish(rec, tier=tier, level="exploration", rule=RULE, assumptions=ASSUME, t0=t0,
                   required_classes=required)
